@@ -1058,4 +1058,62 @@ FE_UNIT = Unit("C18.Stack._format_error", FE, fe_setup,
                             "generator cut: each clause constrains what ONE iteration yields; that the output is the concatenation over "
                             "iterations is the meaning of the loop, not a separate obligation"])
 
-UNITS += [HDR_UNIT, NAT_UNIT, FLAT_UNIT, FE_UNIT]
+
+# ------------------------------------------------------------------------------------------------ Frame.filename / funcname / linetext
+# the names a summary entry and a formatted frame carry are those of the frame's OWN code object; the source text is blank
+# iff lineno == 0 or hide_line, else linecache's line for (own filename, own lineno, own globals), stripped
+getline_of = Function("linecache.getline", Val, Val, Val, Val)
+strip_of = Function("str.strip", Val, Val)
+
+
+def nm_setup(ex, p):
+    self = sym_ref(p, "self", "Frame")
+    pf = sym_ref(p, "pyframe", "frame")
+    co = sym_ref(p, "code", "code")
+    p.setf(self.t, "pyframe", pf.t)
+    p.setf(pf.t, "f_code", co.t)
+    p.pc += [Val.is_intv(p.getf(self.t, "lineno")), Val.is_boolv(p.getf(self.t, "hide_line"))]
+    p.env["self"] = self
+    def m_getline(ex_, p_, args, kw, node):
+        if len(args) != 3 or kw:
+            raise Unsupported("linecache.getline call shape")
+        return [("ok", p_, SV(getline_of(args[0].t, args[1].t, args[2].t), ty="str"))]
+    def m_strip(ex_, p_, args, kw, node):
+        if len(args) != 1 or kw:
+            raise Unsupported("strip() call shape")
+        return [("ok", p_, SV(strip_of(args[0].t), ty="str"))]
+    ex.unit.bindings["linecache.getline"] = m_getline
+    ex.unit.methods[("str", "strip")] = m_strip
+    return dict(self=self, pf=pf, co=co)
+
+
+def nm_unit(attr, cofield):
+    def post(ctx):
+        return ctx.result.t == ctx.H0.getf(ctx.args["co"].t, cofield)
+    return Unit(f"C19.Frame.{attr}", TY + f"Frame.{attr}", nm_setup, post=[Clause(f"C19.frame_{attr}_is_own_code_{cofield}", post)],
+                allowed_raise=lambda ctx: BoolVal(False), **{**COMMON, "props": {}, "field_types": {"pyframe": "frame", "f_code": "code"}})
+
+
+def lt_post(ctx):
+    a = ctx.args
+    H0 = ctx.H0
+    s = a["self"].t
+    blank = Or(Val.i(H0.getf(s, "lineno")) == 0, Val.b(H0.getf(s, "hide_line")))
+    r = ctx.result.t
+    return If(blank, And(is_exact_kind(r, "str"), strval(Val.a(r)) == StringVal("")),
+              r == strip_of(getline_of(H0.getf(a["co"].t, "co_filename"), H0.getf(s, "lineno"), H0.getf(a["pf"].t, "f_globals"))))
+
+
+def lt_unit():
+    def prop_filename(ex, p, o):
+        # Frame.filename is its own unit: here it IS the code object's co_filename
+        return [("ok", p, SV(p.getf(p.getf(p.getf(o.t, "pyframe"), "f_code"), "co_filename"), ty="str"))]
+    return Unit("C18.Frame.linetext", TY + "Frame.linetext", nm_setup, post=[Clause("C18.linetext_blank_iff_no_line_or_hidden_else_own_source_line", lt_post)],
+                allowed_raise=lambda ctx: BoolVal(False),
+                **{**COMMON, "props": {("Frame", "filename"): prop_filename}, "field_types": {"pyframe": "frame", "f_code": "code"},
+                   "options": dict(COMMON.get("options", {}), strings=True)},
+                assumptions=["linecache.getline and str.strip are abstract (stdlib); Frame.filename by its own unit"])
+
+
+NAME_UNITS = [nm_unit("filename", "co_filename"), nm_unit("funcname", "co_name"), lt_unit()]
+UNITS += [HDR_UNIT, NAT_UNIT, FLAT_UNIT, FE_UNIT] + NAME_UNITS
